@@ -208,12 +208,61 @@ func genC02(g *Gen, idx int) *Plan {
 			p.Broker.AnswerDelayMs = g.Range(20, 300)
 		}
 	}
+	if g.Bool(0.2) {
+		// the broker refuses some of the subscriptions (SUBACK 0x80): a refused SUBSCRIBE tells the client
+		// no topic id, whatever the gateway had reserved for it
+		p.Family = "C02-gw-refused-subscriptions"
+		p.Broker.SubackCodes = [][]byte{{0x80}, {0x80, 0}, {0, 0x80, 1}, {0x80, 0x80, 2}}[g.Intn(4)]
+	}
 	p.Peers = []PeerPlan{{Name: "p1", Ops: sg.ops}}
 	p.Cfg.HorizonMs = start + 6000 + 6000
 	return p
 }
 
+// genC01Unsub: a topic id stays valid for the whole session, subscribed or not: REGISTER or SUBSCRIBE
+// gives a name its id, UNSUBSCRIBE of that very name follows, then PUBLISHes with the id.
+func genC01Unsub(g *Gen) *Plan {
+	cfg := g.BaseCfg()
+	cfg.Sched = g.Sched("gateway/handler1.go")
+	p := &Plan{Family: "C01-unsubscribe-then-publish", Cfg: cfg}
+	sg := &sessGen{g: g, cid: "c1"}
+	sg.gap(5, 200)
+	sg.add(connectPkt("c1", 60, false, true))
+	sg.gap(300, 800)
+	names := []string{"t/a", "t/b", "dev/1/temp"}
+	n := int(g.Range(1, 3))
+	for i := 0; i < n; i++ {
+		if g.Bool(0.5) {
+			sg.add(refsn.Pkt{Type: refsn.REGISTER, MsgID: sg.nextMid(), TopicName: names[i]})
+		} else {
+			sg.add(refsn.Pkt{Type: refsn.SUBSCRIBE, MsgID: sg.nextMid(), TIT: refsn.TITNormal, TopicName: names[i], QoS: uint8(g.Intn(3))})
+		}
+		sg.gap(100, 500)
+	}
+	for i := 0; i < n; i++ {
+		if g.Bool(0.7) {
+			sg.add(refsn.Pkt{Type: refsn.UNSUBSCRIBE, MsgID: sg.nextMid(), TIT: refsn.TITNormal, TopicName: names[i]})
+			sg.gap(100, 500)
+		}
+	}
+	for k := 0; k < int(g.Range(1, 4)); k++ {
+		q := uint8(g.Intn(3))
+		pk := refsn.Pkt{Type: refsn.PUBLISH, TIT: refsn.TITNormal, TopicID: uint16(1 + g.Intn(n)), QoS: q, Retain: g.Bool(0.2), Data: sg.payload()}
+		if q > 0 {
+			pk.MsgID = sg.nextMid()
+		}
+		sg.add(pk)
+		sg.gap(50, 400)
+	}
+	p.Peers = []PeerPlan{{Name: "p1", Ops: sg.ops, Policy: PeerPolicy{WillTopic: "w/t"}}}
+	p.Cfg.HorizonMs = sg.t + 3000
+	return p
+}
+
 func genC01(g *Gen, idx int) *Plan {
+	if idx%10 == 9 {
+		return genC01Unsub(g)
+	}
 	p := genGWMix(g, 0.12, "C01-gwmix")
 	for i := range p.Peers {
 		p.Peers[i].Policy.WillTopic = "w/t"
